@@ -3,6 +3,7 @@ import CookModel.Lemmas.Fraction
 import CookModel.Lemmas.FractionMore
 import CookModel.Lemmas.FractionDisplay
 import CookModel.Lemmas.DisplayText
+import CookModel.Lemmas.FractionNearest
 /-
   C12  Fraction approximation never misstates a value.
 
@@ -448,5 +449,72 @@ example : (Value.range (.fraction 2 1 3 (1 / 300 : Rat)) (.regular (7 / 2))).dis
 example : SQuantity.display true (⟨.number (.fraction 2 1 3 (1 / 300 : Rat)), some "cup".toList⟩ : SQuantity Rat)
     = "2 1/3 (+0.003) cup".toList := by decide +kernel
 -- ===== end w4display =====
+-- ===== w4c09best =====
+/-! ## which fraction is chosen, and when the function declines (wave 4; Lemmas/FractionNearest.lean)
+
+  Not clauses of the property's statement: the property says what a result looks like, not which of the admissible
+  fractions it is.  The code looks the fractional part up in FIXED-POINT key space (`(x · 10⁴) as i16`), so "nearest" is
+  exact there and holds up to two key units (2·10⁻⁴) in ℚ; the slack is real (examples below, confirmed on the Rust
+  code).  `keyDist fixed e = |e.key − fixed|`; `tiePrefers e e'` — of two equally near entries the LOWER one is taken
+  iff its denominator is not larger; `NearestIn t fixed maxDen e` — `e` is an entry of `t` with `den ≤ maxDen`, no
+  such entry is nearer to `fixed`, ties by that rule. -/
+
+/-- **`FractionLookupTable::lookup` returns a nearest allowed entry** (nearest in key space among the entries whose
+    denominator is `≤ max_den`, ties: the lower entry iff its denominator is not larger), and returns nothing only if
+    NO entry of the table has an allowed denominator.  For every table with strictly increasing keys — this is where
+    `keysSorted ratTable` (`C12_table_ok`) is used. -/
+theorem C12_lookup_nearest (t : List FracEntry) (hs : keysSorted t = true) (fixed : Int) (maxDen : Nat) :
+    (∀ e, lookupKey t fixed maxDen = some e → NearestIn t fixed maxDen e) ∧
+    (lookupKey t fixed maxDen = none → ∀ e' ∈ t, ¬ e'.den ≤ maxDen) :=
+  fn_lookupKey_nearest t hs fixed maxDen
+
+/-- the table of the source: every entry carries the key of its own fraction, and every fraction `n/d` with a
+    supported denominator `d` and `0 < n < d` is represented in it by an entry of the same value whose denominator is
+    not larger (so it is allowed whenever `d` is) — decided on the table generated from `DENOMS` and `FIX_RATIO` -/
+theorem C12_table_covers : tableCovers Gen.DENOMS ratTable = true := fn_ratTable_covers
+
+/-- **Nearest admissible table fraction.**  A result of `Number::new_approx` with a fractional part (`num ≠ 0`: it
+    came from the table; the rounding-to-an-integer test, which the code makes FIRST, did not succeed) has as whole
+    part the truncation of the value, and for EVERY admissible fraction `whole + n'/d'` (`d'` a supported denominator
+    `≤ max_den`, `0 < n' < d'`) the returned error is smaller than that fraction's error plus two fixed-point units:
+    `|err| < |v − (whole + n'/d')| + 2·10⁻⁴`. -/
+theorem C12_nearest_fraction (v acc : Rat) (maxDen maxWhole w n d : Nat) (err : Rat)
+    (h : newApprox ratTable v acc maxDen maxWhole = some (.fraction w n d err)) (hn : n ≠ 0) :
+    w = wholeOf v ∧ ∀ n' d', d' ∈ Gen.DENOMS → d' ≤ maxDen → 0 < n' → n' < d' →
+      Rat.abs err * 10000 < Rat.abs (v - ((w : Rat) + (n' : Rat) / (d' : Rat))) * 10000 + 2 :=
+  fn_newApprox_nearest v acc maxDen maxWhole w n d err h hn
+
+/-- **Completeness, as far as it holds.**  For a positive value whose whole part is within the limit (and not
+    `u32::MAX`), `new_approx` declines only if the value is not an integer up to 1e-10, rounding it to an integer is
+    not within the accuracy (or the rounded integer is 0 or above the limit), and NO admissible fraction
+    `whole + n'/d'` is within the accuracy less two fixed-point units: `accuracy·v < |v − (whole + n'/d')| + 2·10⁻⁴`
+    for every one of them.  (Without the `2·10⁻⁴` it is false: example below.) -/
+theorem C12_declines_only_if_none_fits (v acc : Rat) (maxDen maxWhole : Nat)
+    (h : newApprox ratTable v acc maxDen maxWhole = none) (hv : 0 < v) (hw : wholeOf v ≤ maxWhole)
+    (hne : wholeOf v ≠ u32Max) :
+    ¬ (v - (ratTrunc v : Rat) < Gen.APPROX_EPS.rat) ∧
+    ¬ (Rat.abs (v - (ratRound v : Rat)) < acc * v ∧ 0 < roundedOf v ∧ roundedOf v ≤ maxWhole) ∧
+    ∀ n' d', d' ∈ Gen.DENOMS → d' ≤ maxDen → 0 < n' → n' < d' →
+      acc * v * 10000 < Rat.abs (v - ((wholeOf v : Rat) + (n' : Rat) / (d' : Rat))) * 10000 + 2 :=
+  fn_newApprox_complete v acc maxDen maxWhole h hv hw hne
+
+/-- the hypotheses are satisfiable and the conclusion is about real alternatives: 0.3 with eighths allowed comes back as
+    `1/3` (error −1/30), nearer than `1/4` and `3/8` -/
+example : newApprox ratTable (3/10 : Rat) (2/10) 8 0 = some (.fraction 0 1 3 (-1/30)) := by decide +kernel
+/-- the slack of `C12_nearest_fraction` is real: for 0.35417 the code returns `1/3` (keys 3541 vs 3333 and 3750:
+    distances 208 and 209) although `3/8` is nearer in ℚ (0.02083 against 0.0208367) -/
+example : newApprox ratTable (35417/100000 : Rat) (1/10) 8 0 = some (.fraction 0 1 3 (35417/100000 - 1/3)) ∧
+    Rat.abs ((35417/100000 : Rat) - 3/8) < Rat.abs ((35417/100000 : Rat) - 1/3) := by decide +kernel
+/-- the slack of `C12_declines_only_if_none_fits` is real: with an accuracy that admits `3/8` but not `1/3` the same
+    value is declined -/
+example : newApprox ratTable (35417/100000 : Rat) (20835/354170) 8 0 = none ∧
+    Rat.abs ((35417/100000 : Rat) - 3/8) ≤ (20835/354170) * (35417/100000) := by decide +kernel
+/-- the rounding test comes first: 0.9 within 20 % is returned as `1` (error −1/10) although `9/10` is in the table -/
+example : newApprox ratTable (9/10 : Rat) (1/5) 10 1 = some (.fraction 1 0 1 (-1/10)) ∧
+    newApprox ratTable (9/10 : Rat) (1/10) 10 1 = some (.fraction 0 9 10 0) := by decide +kernel
+/-- a tie in key space: 0.4375 (key 4375) between `3/8` (3750) and `1/2` (5000), both 625 away — the lower entry has
+    the larger denominator, so the upper one is taken -/
+example : lookupKey ratTable 4375 8 = some ⟨5000, 1, 2⟩ := by decide +kernel
+-- ===== end w4c09best =====
 
 end Cook
